@@ -1,2 +1,124 @@
+(* C35 — Credential helper messages cannot be forged.
+   Only statements here; every proof is [exact <lemma of Proofs.v>].
+   Model: Model.v (gix-credentials Context::write_to, validate, Context::from_bytes, with bstr
+   lines(), splitn(2,'='), UTF-8 validity and Boolean::try_from), after the `fix:` commit that makes
+   validate refuse CR in values.
+
+   Vocabulary (Proofs.v):
+   [present c]      the (key, value) pairs of the fields of c that are Some, in the order write_to
+                    visits them: url, path, protocol, host, username, password (theorem present_fields)
+   [line (k,v)]     k ++ "=" ++ v            [encode kvs]  the lines of kvs, each followed by LF
+   [clean v]        v contains no NUL, no LF and no CR
+   [clear_quit c]   c with quit := None (write_to never writes quit, by design and like git)
+   [strings_utf8 c] the four String fields hold well-formed UTF-8 (Rust's String invariant)
+   [split_on sep s] the pieces a reader gets that cuts s at every byte satisfying sep
+   [sep_ok sep]     sep holds for LF, and for nothing but LF and CR
+   write_to returns (bytes written so far, result). *)
 From GixV.Base Require Import Bytes BytesFacts Outcome.
 From GixV.C35 Require Import Model Proofs.
+
+(* every context that write_to accepts decodes back to the same fields *)
+Theorem ctx_round_trip : forall c out, strings_utf8 c = true ->
+  write_to c = (out, Ok tt) -> from_bytes out = Ok (clear_quit c).
+Proof. exact L_round_trip. Qed.
+
+(* write_to succeeds exactly when every present value is free of NUL, LF and CR, and then writes
+   exactly one line per present field *)
+Theorem write_accepts_exactly_clean_values : forall c out,
+  write_to c = (out, Ok tt) <->
+  (forallb (fun p => clean (snd p)) (present c) = true /\ out = encode (present c)).
+Proof. exact L_write_ok_iff. Qed.
+
+(* a value containing NUL, LF or CR is refused rather than sent: write_to fails, and what it has
+   written before failing are the intact lines of earlier fields only — not the offending pair *)
+Theorem bad_value_is_refused_not_sent : forall c k v,
+  In (k, v) (present c) -> In NUL v \/ In LF v \/ In CR v ->
+  exists pre post, write_to c = (encode pre, Err Encoding) /\ present c = pre ++ post /\
+    forallb (fun p => clean (snd p)) pre = true /\ ~ In (k, v) pre.
+Proof. exact L_refuses_in. Qed.
+
+(* no injection, whatever the result (Ok or refused half-way): the bytes that reached the helper
+   are the lines of a prefix [sent] of the present fields (all of them when Ok); a reader cutting
+   at LF, or at LF and CR, sees exactly those lines and one empty piece after the last LF; the
+   number of line breaks equals the number of fields sent; and in each line the first '=' is the
+   one write_to put there, so key and value are the field's own — no value can introduce a key *)
+Theorem no_injection : forall c out r, write_to c = (out, r) ->
+  exists sent post,
+    present c = sent ++ post /\ (r = Ok tt -> post = []) /\
+    out = encode sent /\
+    forallb (fun p => clean (snd p)) sent = true /\
+    (forall sep, sep_ok sep -> split_on sep out = map line sent ++ [[]]) /\
+    (forall sep, sep_ok sep -> length (filter sep out) = length sent) /\
+    Forall (fun p => splitn2_eq (line p) = (fst p, Some (snd p))) sent.
+Proof. exact L_no_injection. Qed.
+
+(* number of lines = number of present fields, for LF-only and for CR-or-LF readers *)
+Theorem line_count_is_field_count : forall c out, write_to c = (out, Ok tt) ->
+  length (filter is_lf out) = length (present c) /\
+  length (filter is_cr_or_lf out) = length (present c) /\
+  split_on is_lf out = map line (present c) ++ [[]] /\
+  split_on is_cr_or_lf out = map line (present c) ++ [[]].
+Proof. exact L_line_count. Qed.
+
+Theorem present_fields : forall c,
+  present c = opt_pair (bs "url") (c_url c) ++ opt_pair (bs "path") (c_path c)
+           ++ opt_pair (bs "protocol") (c_protocol c) ++ opt_pair (bs "host") (c_host c)
+           ++ opt_pair (bs "username") (c_username c) ++ opt_pair (bs "password") (c_password c).
+Proof. exact L_present_fields. Qed.
+
+(* neither direction can panic or hang *)
+Theorem write_to_total : forall c, exists out r, write_to c = (out, r) /\ r <> Panic /\ r <> OutOfFuel.
+Proof. exact L_write_total. Qed.
+Theorem from_bytes_total : forall input, from_bytes input <> Panic /\ from_bytes input <> OutOfFuel.
+Proof. exact L_from_bytes_total. Qed.
+
+(* the other direction: whatever from_bytes accepts (from any input at all, e.g. a helper's
+   answer) is a context that write_to accepts, and it survives being sent on and read again *)
+Theorem read_write_read : forall input c, from_bytes input = Ok c ->
+  strings_utf8 c = true /\
+  write_to c = (encode (present c), Ok tt) /\
+  from_bytes (encode (present c)) = Ok (clear_quit c).
+Proof. exact L_read_write_read. Qed.
+
+(* ---- non-vacuity ------------------------------------------------------------------------ *)
+
+Definition ex_ctx : ctx :=
+  mk_ctx (Some (bs "https")) (Some (bs "example.com:8080")) None (Some (bs "host=evil"))
+         (Some (bs "pass=word ")) (Some (bs "https://example.com:8080/a=b")) (Some true).
+
+(* a context whose values contain '=' and look like attribute lines is accepted and round-trips *)
+Example round_trip_example :
+  strings_utf8 ex_ctx = true /\
+  write_to ex_ctx =
+    (bs "url=https://example.com:8080/a=b" ++ [LF] ++ bs "protocol=https" ++ [LF]
+     ++ bs "host=example.com:8080" ++ [LF] ++ bs "username=host=evil" ++ [LF]
+     ++ bs "password=pass=word " ++ [LF], Ok tt) /\
+  from_bytes (fst (write_to ex_ctx)) = Ok (clear_quit ex_ctx) /\
+  length (present ex_ctx) = 5%nat.
+Proof. repeat split. Qed.
+
+(* refusal half-way: url is sent, the username with an embedded LF is not, nor is the password *)
+Example refusal_example :
+  let c := mk_ctx None None None (Some (bs "u" ++ [LF] ++ bs "host=evil")) (Some (bs "pw"))
+                  (Some (bs "https://h")) None in
+  In (bs "username", bs "u" ++ [LF] ++ bs "host=evil") (present c) /\
+  write_to c = (bs "url=https://h" ++ [LF], Err Encoding).
+Proof. cbv zeta. split; [right; left; reflexivity | reflexivity]. Qed.
+
+(* why CR has to be refused: the reader (like git) takes CR LF as the line ending, so a
+   username "user\r", if it were written, would come back as "user" *)
+Example reader_strips_cr_before_lf :
+  from_bytes (bs "username=user" ++ [CR; LF]) =
+  Ok (mk_ctx None None None (Some (bs "user")) None None None) /\
+  fst (write_to (mk_ctx None None None (Some (bs "user" ++ [CR])) None None None)) = [].
+Proof. split; reflexivity. Qed.
+
+(* read_write_read has a non-trivial instance: CRLF input, duplicate key, unknown key, quit *)
+Example read_example :
+  from_bytes (bs "host=a" ++ [CR; LF] ++ bs "host=b" ++ [LF] ++ bs "x=y" ++ [LF] ++ bs "quit=1" ++ [LF]
+              ++ [LF] ++ bs "username=ignored" ++ [LF]) =
+  Ok (mk_ctx None (Some (bs "b")) None None None None (Some true)).
+Proof. reflexivity. Qed.
+
+Example sep_ok_instances : sep_ok is_lf /\ sep_ok is_cr_or_lf.
+Proof. split; [exact is_lf_ok | exact is_cr_or_lf_ok]. Qed.
